@@ -56,7 +56,7 @@ def pil_width_in(text, font, size):
 
 
 def plan(tier, seed):
-    per = 110 if tier == "quick" else 1700
+    per = 200 if tier == "quick" else 2200
     return [{"n": per} for _ in range(16)]
 
 
